@@ -103,6 +103,7 @@ PATTERNS = {
     r'\"[^\"]+\"': ".str",
     r"\n": ".nl1",
     r'"EXPECT:"[^\t \n]*': ".expect",
+    r'"EXPECT:"([^\t \n*]|"*"+[^\t \n*/])*': ".expect2",
     r"<<EOF>>": ".eof",
 }
 DEFINITIONS = {"alpha": "[a-zA-Z_]", "num": "[0-9]+", "idchr": "[a-zA-Z0-9_$#]"}
